@@ -16,6 +16,8 @@
 # *                                                                            *
 # * Author:  Beatrice Alessandra Motetti <beatrice.motetti@polito.it>          *
 # *----------------------------------------------------------------------------*
+import torch
+
 from . import CostSpec
 from .ops import _ops_conv1d_generic, _ops_conv2d_generic, _ops_conv1d_dw, \
         _ops_conv2d_dw, _ops_linear_generic
@@ -49,11 +51,17 @@ def _mpic_lut(a_bit, w_bit):
     return _MPIC_LUT[a_bit][w_bit]
 
 
+def _bits(prec):
+    """Precision as a plain number: the MPS layers hand over 0-dim tensors, static layer
+    descriptions plain ints"""
+    return prec.item() if isinstance(prec, torch.Tensor) else prec
+
+
 def _mpic_latency_conv1d_generic(spec):
     w_prec = spec['w_precision']
     in_prec = spec['in_precision']
     macs = _ops_conv1d_generic(spec)
-    cost = macs * _mpic_lut(in_prec.item(), w_prec.item())
+    cost = macs * _mpic_lut(_bits(in_prec), _bits(w_prec))
     return cost
 
 
@@ -61,7 +69,7 @@ def _mpic_latency_conv2d_generic(spec):
     w_prec = spec['w_precision']
     in_prec = spec['in_precision']
     macs = _ops_conv2d_generic(spec)
-    cost = macs * _mpic_lut(in_prec.item(), w_prec.item())
+    cost = macs * _mpic_lut(_bits(in_prec), _bits(w_prec))
     return cost
 
 
@@ -73,7 +81,7 @@ def _mpic_latency_conv1d_dw(spec):
     # The correct thing is using cout, but this is leaking information from the NAS
     # internals to the cost model. So this should be probably fixed (TODO)
     macs = _ops_conv1d_dw(spec)
-    cost = macs * _mpic_lut(in_prec.item(), w_prec.item())
+    cost = macs * _mpic_lut(_bits(in_prec), _bits(w_prec))
     return cost
 
 
@@ -85,7 +93,7 @@ def _mpic_latency_conv2d_dw(spec):
     # The correct thing is using cout, but this is leaking information from the NAS
     # internals to the cost model. So this should be probably fixed (TODO)
     macs = _ops_conv2d_dw(spec)
-    cost = macs * _mpic_lut(in_prec.item(), w_prec.item())
+    cost = macs * _mpic_lut(_bits(in_prec), _bits(w_prec))
     return cost
 
 
@@ -96,7 +104,7 @@ def _mpic_latency_linear(spec):
     # in_format = spec['in_format']
     # assert w_format == int and in_format == int, "Model only supports integer quantization"
     macs = _ops_linear_generic(spec)
-    cost =  macs * _mpic_lut(in_prec.item(), w_prec.item())
+    cost =  macs * _mpic_lut(_bits(in_prec), _bits(w_prec))
     return cost
 
 
